@@ -159,25 +159,45 @@ def run(ctx):
                  key="R16.1|%s|%s|%s" % (b.name, cname(cs.node), "ok" if ok else "unguarded"))
     r.ob("R16.1.insertion-inventory", "library", n_ins >= 2, "%d insertion sites into Element.children" % n_ins, key="R16.1|inventory")
     # helper equality (informational contradiction check): a helper that tests membership with Necessity::eq is tag-sensitive
-    # R16.1b adding a present name changes nothing
+    # R16.1b adding a present name changes nothing: on the outcome "lookup found the name" of the guard that
+    # protects the insertion, nothing may be called with a unique reference and no field may be written
     for b in lib.real_bodies():
-        if b.name.endswith("::add_unique_child"):
-            for cs in b.calls():
-                if cs.node["callee"].get("path") in name_only_fns:
-                    nb = b.succs(cs.bb)
-                    # find the is_some test
-            g_sites = [c for c in b.calls() if cname(c.node) == "std::option::Option::is_some"]
-            if g_sites:
-                tb = b.succs(g_sites[0].bb)[0]
-                tt = b.blocks[tb]["term"]
-                if tt["k"] == "switch":
-                    present = tt["otherwise"]
-                    region = {n for n in b.reachable() if (tb, present) in b.transitive_control_deps(n)}
-                    eff = [cname(b.blocks[x]["term"]) for x in region if b.blocks[x]["term"]["k"] == "call"]
-                    wr = [s for s in b.assigns() if s.bb in region and s.node["place"]["p"]]
-                    ok = not eff and not wr
-                    r.ob("R16.1b.present-name-is-noop", b.name, ok, "when the name is present the function returns without any call or field write" if ok else
-                         "present-name path has effects: %s" % eff, site=g_sites[0], key="R16.1b|noop")
+        if not b.name.endswith("::add_unique_child"):
+            continue
+        done = False
+        for bb in sorted(b.reachable()):
+            tt = b.blocks[bb]["term"]
+            if tt["k"] != "switch":
+                continue
+            sw = mir.switch_enum(b, bb)
+            present = None
+            if sw is not None and sw["enum"] == "std::option::Option":
+                look = strip(term_of(b, sw["place"]))
+                if look[0] == "call" and look[3].node["callee"].get("path") in name_only_fns:
+                    present = mir.variant_target(sw, b, "Some")
+            else:
+                c = strip(term_of(b, tt["op"]))
+                if c[0] == "call" and c[1] in ("std::option::Option::is_some", "std::option::Option::is_none"):
+                    look = strip(c[2][0])
+                    if look[0] == "call" and look[3].node["callee"].get("path") in name_only_fns:
+                        present = tt["otherwise"] if c[1].endswith("is_some") else tt["targets"][0][1]
+            if present is None:
+                continue
+            done = True
+            region = {n for n in b.reachable() if (bb, present) in b.transitive_control_deps(n)} | {present}
+            region = {n for n in region if (bb, present) in b.transitive_control_deps(n) or n == present}
+            eff = []
+            for x in region:
+                t2 = b.blocks[x]["term"]
+                if t2["k"] == "call" and any(is_mut_ref(arg_ty(b, a)) for a in t2["args"]):
+                    eff.append(cname(t2))
+            wr = [s_ for s_ in b.assigns() if s_.bb in region and s_.node["place"]["p"] and any(isinstance(e, dict) and "f" in e for e in b.canon(s_.node["place"])["p"])]
+            ok = not eff and not wr
+            r.ob("R16.1b.present-name-is-noop", b.name, ok, "when the name is present the function returns without modifying anything" if ok else
+                 "when the name is already present the function still calls %s / writes %d field(s): adding a present name changes the tree" % (eff, len(wr)),
+                 site=mir.Site(b, bb, None), key="R16.1b|noop")
+        if not done:
+            r.ob("R16.1b.present-name-is-noop", b.name, False, "no name-lookup test found in add_unique_child", site=mir.line_of(b.span), key="R16.1b|noop")
     # R16.3 mark-optional preserves the value
     for b in lib.real_bodies():
         if b.name.endswith("::set_child_optional"):
